@@ -25,7 +25,13 @@
 
 struct Rng {
     uint64_t s;
-    explicit Rng(uint64_t seed) : s(seed * 0x9E3779B97F4A7C15ULL + 0x1234567ULL) {}
+    // the seed is scrambled first: with s = seed * increment consecutive seeds would be the same
+    // stream shifted by one draw
+    explicit Rng(uint64_t seed) : s(seed ^ 0x5DEECE66DULL)
+    {
+        uint64_t a = next(), b = next();
+        s = a ^ (b << 1) ^ (seed * 0xD1342543DE82EF95ULL);
+    }
     uint64_t next()
     {
         uint64_t z = (s += 0x9E3779B97F4A7C15ULL);
